@@ -19,6 +19,16 @@ def _k(r):
     return r if not isinstance(r, dict) else json.dumps(r, sort_keys=True)
 
 
+def strip_bitcasts(fn, ref):
+    """pointer bitcasts preserve the value: facts are recorded about the un-cast value"""
+    for _ in range(16):
+        i = fn.get(ref) if isinstance(ref, str) else None
+        if i is None or i.op != 'bitcast':
+            return ref
+        ref = i.o[0]
+    return ref
+
+
 def negate(atom):
     op, a, b = atom
     if op == 'eq':
@@ -64,6 +74,7 @@ def cond_atoms(fn, ref, truth, depth=0):
             return cond_atoms(fn, ai.o[0], t, depth + 1)
         if ins.pred not in _PRED:
             return [], []
+        a, b = strip_bitcasts(fn, a), strip_bitcasts(fn, b)
         atom = _PRED[ins.pred](_k(a), _k(b))
         return [atom if truth else negate(atom)], []
     if ins.op == 'xor' and const_int(ins.o[1]) == 1:
@@ -89,6 +100,9 @@ def cond_atoms(fn, ref, truth, depth=0):
             atoms, via = cond_atoms(fn, v, truth, depth + 1)
             return atoms, via + [fn.bb[bb]]
         return [], []
+    if ins.ty == 'i1' and ins.op in ('call', 'load', 'select', 'extractvalue', 'phi', 'and', 'or', 'xor'):
+        # an opaque truth value (e.g. the bool result of a call): remember it as such
+        return [('ne' if truth else 'eq', _k(ref), '#0')], []
     return [], []
 
 
@@ -168,7 +182,10 @@ class Prover:
     def prove_at(self, goal, ins, depth=3):
         """prove `goal` at instruction `ins`: along every path reaching it (case split at joins)"""
         self.trace = []
-        return self._prove_block(goal, ins.block, depth, set())
+        return self._prove_block(self._norm(goal), ins.block, depth, set())
+
+    def _norm(self, goal):
+        return (goal[0],) + tuple(_k(strip_bitcasts(self.fn, x)) if isinstance(x, str) else x for x in goal[1:])
 
     def facts_at(self, ins):
         return self.fc.block_facts(ins.block)
@@ -183,7 +200,7 @@ class Prover:
                     if bb == pred.name:
                         return _k(v)
             return r
-        return (goal[0],) + tuple(s(x) for x in goal[1:])
+        return self._norm((goal[0],) + tuple(s(x) for x in goal[1:]))
 
     def _prove_block(self, goal, block, depth, seen):
         facts = self.fc.block_facts(block)
